@@ -26,6 +26,26 @@ Theorem C10_failure_reported : forall M n, wf n ->
 Proof. exact delete_failure. Qed.
 Print Assumptions C10_failure_reported.
 
+(* "a directory only when empty (its matched children having been removed first)": an entry is removed exactly when it is matched
+   and everything below it is removed (the flag of [gone]), and then what is removed at and below it is the whole -depth sequence
+   of that subtree: every child before its directory, the entry itself last *)
+Theorem C10_directory_only_when_empty : forall M n rp,
+  (In rp (fst (gone M rp n)) <-> snd (gone M rp n) = true) /\
+  (snd (gone M rp n) = true -> fst (gone M rp n) = map ev_path (posto rp n)).
+Proof. intros M n rp. split; [apply gone_self_iff|apply gone_all_below]. Qed.
+Print Assumptions C10_directory_only_when_empty.
+
+(* ... and nothing outside the starting point is ever removed: every removed path lies at or below it *)
+Theorem C10_inside_starting_point : forall M n rp, Forall (under rp) (fst (gone M rp n)).
+Proof. exact gone_under. Qed.
+Print Assumptions C10_inside_starting_point.
+
+Example C10_witness_empty :
+  let t := Dir [(1, Dir [(11, File); (12, File)]); (2, File)] in
+  gone (fun _ => true) [] t = ([[11; 1]; [12; 1]; [1]; [2]; []], true) /\
+  map ev_path (posto [] t) = [[11; 1]; [12; 1]; [1]; [2]; []].
+Proof. vm_compute. split; reflexivity. Qed.
+
 (* non-vacuity: r/{1/{11,12}, 2}; matched: 1, 11, 2 -> 11 and 2 removed, 1 not (12 remains), failure reported *)
 Example C10_witness :
   let t := Dir [(1, Dir [(11, File); (12, File)]); (2, File)] in
